@@ -648,53 +648,52 @@ func ruleLEX3(c *Ctx) {
 		c.unres(rule, "template/PushRune", "", "reader not found")
 		return
 	}
-	// the statement guarding the search: if flags & F == 0 { for b < e {...} }
-	var search *ast.IfStmt
+	// the search loop: the loop from inside which input is consumed (`return _lexerConsume`); that
+	// it is skipped for flagged rows is NG-3's obligation
+	consume, _ := ti.Pkg.Scope().Lookup("_lexerConsume").(*types.Const)
+	var loop *ast.ForStmt
+	rpar := parents(r.fd)
 	ast.Inspect(r.fd.Body, func(n ast.Node) bool {
-		ifs, ok := n.(*ast.IfStmt)
-		if !ok || search != nil {
+		rs, ok := n.(*ast.ReturnStmt)
+		if !ok || len(rs.Results) != 1 || consume == nil || usesObj(ti.Info, rs.Results[0]) != types.Object(consume) {
 			return true
 		}
-		if be, ok := ast.Unparen(ifs.Cond).(*ast.BinaryExpr); ok && be.Op == token.EQL {
-			if and, ok := ast.Unparen(be.X).(*ast.BinaryExpr); ok && and.Op == token.AND {
-				search = ifs
+		for q := rpar[ast.Node(rs)]; q != nil; q = rpar[q] {
+			if fs, ok := q.(*ast.ForStmt); ok {
+				loop = fs
+				break
 			}
 		}
 		return true
 	})
-	if search == nil {
-		c.bad(rule, "template/PushRune/search-before-actions", ti.Pos(r.fd.Pos()), "no transition search guarded by the non-greedy flag precedes the actions")
+	if loop == nil {
+		c.bad(rule, "template/PushRune/search-before-actions", ti.Pos(r.fd.Pos()), "no transition search (a loop from which input is consumed) precedes the actions")
 		return
 	}
-	// the search is a loop over the row's transitions that runs until b >= e
-	var loop *ast.ForStmt
-	ast.Inspect(search.Body, func(n ast.Node) bool {
-		if fs, ok := n.(*ast.ForStmt); ok && loop == nil {
-			loop = fs
+	// it runs while lo < hi (other conjuncts may only stop it earlier)
+	var lcond *ast.BinaryExpr
+	if loop.Cond != nil {
+		for _, cj := range conjuncts(loop.Cond) {
+			if be, ok := ast.Unparen(cj).(*ast.BinaryExpr); ok && be.Op == token.LSS {
+				lcond = be
+			}
+		}
+	}
+	okLoop := lcond != nil
+	// no way out of the search other than return or exhausting it
+	ast.Inspect(loop.Body, func(n ast.Node) bool {
+		if b, ok := n.(*ast.BranchStmt); ok && (b.Tok == token.BREAK || b.Tok == token.GOTO) {
+			okLoop = false
 		}
 		return true
 	})
-	okLoop := false
-	if loop != nil {
-		if be, ok := loop.Cond.(*ast.BinaryExpr); ok && be.Op == token.LSS {
-			okLoop = true
-		}
-		// no break out of the search other than return
-		ast.Inspect(loop.Body, func(n ast.Node) bool {
-			if b, ok := n.(*ast.BranchStmt); ok && (b.Tok == token.BREAK || b.Tok == token.GOTO) {
-				okLoop = false
-			}
-			return true
-		})
-	}
-	okOrder := search.End() <= r.loop.Pos()
-	c.check(okLoop && okOrder, rule, "template/PushRune/search-before-actions", ti.Pos(search.Pos()),
+	okOrder := loop.End() <= r.loop.Pos()
+	c.check(okLoop && okOrder, rule, "template/PushRune/search-before-actions", ti.Pos(loop.Pos()),
 		"the actions of a row run only after the binary search over its transitions was exhausted (or the row is flagged non-greedy): longest match",
 		"the action dispatch can be reached before the transition search is exhausted")
 	// binary search arithmetic: hi = mid under `r < lower`, lo = mid+1 under `r > upper`
-	if loop != nil {
+	if loop != nil && lcond != nil {
 		info := ti.Info
-		lcond, _ := loop.Cond.(*ast.BinaryExpr)
 		lo, hi := exprString(lcond.X), exprString(lcond.Y)
 		runeParam := paramObj(info, r.fd, 0)
 		defs := localDefs(info, r.fd.Body)
@@ -1209,7 +1208,8 @@ func ruleLEX6(c *Ctx) {
 	}
 	var moveSet types.Object
 	for _, call := range findCalls(info, sp, true, func(fn *types.Func, _ *ast.CallExpr) bool {
-		return fn != nil && fn.Name() == "Move" && strings.HasSuffix(fullName(fn), ".partitions.Move")
+		// p.Move(s, g), or the same thing spelled p.Remove(s); p.Add(s, g)
+		return fn != nil && (strings.HasSuffix(fullName(fn), ".partitions.Move") || strings.HasSuffix(fullName(fn), ".partitions.Add"))
 	}) {
 		for _, it := range iteratedBy(call) {
 			if o := rootVar(it); o != nil {
@@ -1330,6 +1330,71 @@ func ruleLEX6(c *Ctx) {
 		}
 		return true
 	})
+	if !okInputs && inputSet != nil {
+		// the set is computed by a helper applied to the group's states: the same nesting inside
+		// the helper, over its parameter, into the set it returns
+		if hc, ok := ast.Unparen(defs[inputSet]).(*ast.CallExpr); ok && len(hc.Args) >= 1 {
+			if hf := calleeFunc(info, hc); hf != nil && hf.Pkg() == pk.Types {
+				if hd := p.funcDecls[hf.Origin()]; hd != nil && hd.Body != nil {
+					argIsGroup := -1
+					for i, a := range hc.Args {
+						if gc, ok := ast.Unparen(resolveVia(info, defs, a)).(*ast.CallExpr); ok {
+							if fn := calleeFunc(info, gc); fn != nil && fn.Name() == "GetGroup" {
+								argIsGroup = i
+							}
+						}
+					}
+					if argIsGroup >= 0 {
+						hparam := paramObj(info, hd, argIsGroup)
+						hpar := parents(hd)
+						var returned types.Object
+						inspectNoLit(hd.Body, func(n ast.Node) bool {
+							if rs, ok := n.(*ast.ReturnStmt); ok && len(rs.Results) == 1 {
+								returned = usesObj(info, rs.Results[0])
+							}
+							return true
+						})
+						ast.Inspect(hd.Body, func(n ast.Node) bool {
+							call, ok := n.(*ast.CallExpr)
+							if !ok {
+								return true
+							}
+							sel, ok := call.Fun.(*ast.SelectorExpr)
+							if !ok || sel.Sel.Name != "Add" || returned == nil || usesObj(info, sel.X) != returned {
+								return true
+							}
+							overTrans, overGroup := false, false
+							for m := hpar[ast.Node(call)]; m != nil; m = hpar[m] {
+								var it ast.Expr
+								switch x := m.(type) {
+								case *ast.RangeStmt:
+									it = x.X
+								case *ast.FuncLit:
+									if c2, ok := hpar[x].(*ast.CallExpr); ok {
+										if s2, ok := c2.Fun.(*ast.SelectorExpr); ok {
+											it = s2.X
+										}
+									}
+								}
+								if it == nil {
+									continue
+								}
+								if isField(info, it, "lexergen/dfa", "State", "Transitions") {
+									overTrans = true
+								} else if usesObj(info, it) == hparam && hparam != nil {
+									overGroup = true
+								}
+							}
+							if overTrans && overGroup {
+								okInputs = true
+							}
+							return true
+						})
+					}
+				}
+			}
+		}
+	}
 	c.check(okInputs, rule, "dfa.subPartition/inputs-of-all-states", p.Pos(sp.Pos()), "the inputs compared are those of every state of the group", "the inputs compared do not cover every state of the group")
 }
 
